@@ -28,7 +28,7 @@ impl Property for C11 {
         vec!["K is measured per (goal, solver) on a fresh solver; schedules beyond the cap of 48 callbacks are sampled only by 'always false'".into()]
     }
     fn cases_per_shard(&self, tier: Tier) -> u32 {
-        tier.pick(150, 2000)
+        tier.pick(100, 2000)
     }
     fn decode(&self, t: &mut Tape, _tier: Tier) -> PG {
         let cfg = if t.chance(40) { GenCfg::horn_auto() } else { GenCfg::horn() };
@@ -138,8 +138,18 @@ impl Property for C11 {
                                 Run::Done(s) => {
                                     let got = render(&s);
                                     if &got != exp {
+                                        let mut dc = super::c10::diff_class(exp, &got);
+                                        // unbounded answer sets: truncation point depends on what is tabled (see C10)
+                                        let within = non_growing(&case.program) && (goal_is_closed(&case.goals[gj]) || finite_answers(&case.program));
+                                        if !within && !dc.contains("repeated-var") {
+                                            if let Some((_, fs)) = &fresh[gj] {
+                                                if super::c04::incompatible(&names, &lgj.peeled, fs, &s, &mut out).is_none() {
+                                                    dc = "precision-only:unbounded-answers".into();
+                                                }
+                                            }
+                                        }
                                         out.fail(
-                                            format!("{}:later-solve-differs:{}", sv.name(), super::c10::diff_class(exp, &got)),
+                                            format!("{}:later-solve-differs:{}", sv.name(), dc),
                                             ctx(format!("after the interrupted solve, the same solver answers `{}` with `{}`; a fresh solver says `{}`", lgj.text, got, exp)),
                                         );
                                         recovered = false;
